@@ -428,7 +428,7 @@ theorem Ty.framedEps (base : Nat) : ∀ (t : Ty), t.wf = true → ∀ v, t.wt v 
           obtain ⟨e, he, her, heb⟩ := decEpsZero_ok base (.adt mt vs) (.record fs) pos rest hrt (AlignedAll_single ha)
           refine ⟨e, ?_, her, ?_⟩
           · rw [he]; simp
-          · intro b hb; rw [heb b hb]; simp
+          · intro b hb; rw [heb b hb, hrt.1]; simp
         | variant i fs => simp [Ty.wt, hne] at hwt
         | _ => simp [Ty.wt] at hwt
       · simp only [hz, if_false, Bool.false_eq_true] at hw
